@@ -1,4 +1,5 @@
 import PcfgVerif.Model.Detect
+import PcfgVerif.Model.Scorer
 import PcfgVerif.Drive.Loader
 /-! Driver commands for the detectors / parsing pipeline (C05, C13, C03). -/
 namespace Drive.Detect
@@ -7,8 +8,10 @@ open Pcfg Pcfg.Detect Drive.Loader
 structure St where
   flags : List (Nat × Nat) := []
   lowers : List (CPs × CPs) := []
+  lowersPy : List (CPs × CPs) := []
   mw : MWTable := []
   cfg : MWCfg := {}
+  sg : ScoreG Float := []
 
 def St.flag (st : St) (c bit : Nat) : Bool :=
   match st.flags.find? (·.1 == c) with
@@ -17,7 +20,8 @@ def St.flag (st : St) (c bit : Nat) : Bool :=
 
 def St.uenv (st : St) : UEnv :=
   { isAlpha := fun c => st.flag c 1, isDigit := fun c => st.flag c 2, isUpper := fun c => st.flag c 4,
-    lowerS := fun s => match st.lowers.find? (·.1 == s) with | some (_, l) => l | none => s }
+    lowerS := fun s => match st.lowers.find? (·.1 == s) with | some (_, l) => l | none => s
+    lowerPy := fun s => match st.lowersPy.find? (·.1 == s) with | some (_, l) => l | none => s }
 
 def showSec (s : Sec) : String := s!"{showCps s.1}:{s.2.getD "None"}"
 
@@ -46,6 +50,10 @@ def step (st : St) : List String → St × String
     match parseCps a, parseCps b with
     | some a, some b => ({ st with lowers := (a, b) :: st.lowers }, "ok")
     | _, _ => (st, "bad-op")
+  | ["dt.lowerpy", a, b] =>
+    match parseCps a, parseCps b with
+    | some a, some b => ({ st with lowersPy := (a, b) :: st.lowersPy }, "ok")
+    | _, _ => (st, "bad-op")
   | ["dt.mw", w, n] =>
     match parseCps w, n.toNat? with
     | some w, some n => ({ st with mw := st.mw ++ [(w, n)] }, "ok")
@@ -61,6 +69,20 @@ def step (st : St) : List String → St × String
     match parseCps pw with
     | some pw => (st, showParsed (parse st.uenv st.cfg st.mw pw))
     | none => (st, "bad-op")
+  | ["sc.clear"] => ({ st with sg := [] }, "ok")
+  | ["sc.tbl", name, v, p] =>
+    match parseCps v, parseFloat p with
+    | some v, some p =>
+      let sg := if st.sg.any (·.1 == name) then st.sg.map (fun e => if e.1 == name then (e.1, e.2 ++ [(v, p)]) else e)
+                else st.sg ++ [(name, [(v, p)])]
+      ({ st with sg := sg }, "ok")
+    | _, _ => (st, "bad-op")
+  | ["sc.score", pw, omenOk, limit] =>
+    match parseCps pw, parseFloat limit with
+    | some pw, some limit =>
+      let r := score (fun a b => a * b) (fun a b => a > b) 1.0 0.0 limit st.sg (parse st.uenv st.cfg st.mw pw) (omenOk == "1")
+      (st, s!"{r.category} {showFloat r.prob}")
+    | _, _ => (st, "bad-op")
   | _ => (st, "bad-op")
 
 end Drive.Detect
